@@ -1,4 +1,79 @@
-import Emitter.Model.Lww
+/-
+  C04 — Replicated cluster state converges regardless of delivery order.
+  Property-level statements; proofs are in Emitter/Lemmas/Lww.lean.
+-/
+import Emitter.Lemmas.Lww
 namespace Emitter.C04
-theorem placeholder : True := trivial
+open Emitter Emitter.Lww
+
+/-- `Merge` is the pointwise maximum of add and remove times, for every key: absent keys,
+ties, zero and negative incoming times (the local replica's times are ≥ 0, an invariant of
+every reachable state, see `nonneg_preserved`). -/
+theorem merge_is_max (s r : Map) (hs : NonNeg s) (hr : NoDup r) (k : Bytes) :
+    tget (merge s r).1 k = tmax (tget s k) (tget r k) := tget_merge s r hs hr k
+
+/-- the invariants the other theorems assume are preserved by every operation -/
+theorem nonneg_preserved (s r : Map) (k : Bytes) (now : Int) (p : Bytes) (hs : NonNeg s) :
+    NonNeg (merge s r).1 ∧ NonNeg (add s k now p) ∧ NonNeg (del s k now) :=
+  ⟨nonneg_merge s r hs, nonneg_add s k now p hs, nonneg_del s k now hs⟩
+
+theorem nodup_preserved (s r : Map) (k : Bytes) (now : Int) (p : Bytes) (hs : NoDup s) :
+    NoDup (merge s r).1 ∧ NoDup (add s k now p) ∧ NoDup (del s k now) :=
+  ⟨nodup_merge s r hs, nodup_add s k now p hs, nodup_del s k now hs⟩
+
+/-- local operations are merges of one-entry updates (so histories of add / remove at any
+replica with arbitrary clock readings are covered by the delivery theorems) -/
+theorem local_ops_are_updates (s : Map) (k : Bytes) (now : Int) (p : Bytes) (hs : NonNeg s) :
+    Equiv (add s k now p) (merge s [(k, ⟨now, 0, p⟩)]).1 ∧ Equiv (del s k now) (merge s [(k, ⟨0, now, []⟩)]).1 :=
+  ⟨add_as_merge s k now p hs, del_as_merge s k now hs⟩
+
+/-- semilattice laws -/
+theorem idempotent (s : Map) (hs : NonNeg s) (hd : NoDup s) : Equiv (merge s s).1 s := merge_idem s hs hd
+theorem commutative (a b : Map) (ha : NonNeg a) (hb : NonNeg b) (da : NoDup a) (db : NoDup b) :
+    Equiv (merge a b).1 (merge b a).1 := merge_comm a b ha hb da db
+theorem associative (a b c : Map) (ha : NonNeg a) (hb : NonNeg b) (da : NoDup a) (db : NoDup b) (dc : NoDup c) :
+    Equiv (merge (merge a b).1 c).1 (merge a (merge b c).1).1 := merge_assoc a b c ha hb da db dc
+
+/-- Any two replicas that received the same set of updates — in any order, any number of
+times, in any grouping — hold the same add and remove times for every key … -/
+theorem converge (ds₁ ds₂ : List Map) (h₁ : ∀ u ∈ ds₁, NoDup u) (h₂ : ∀ u ∈ ds₂, NoDup u)
+    (hset : ∀ u, u ∈ ds₁ ↔ u ∈ ds₂) : Equiv (deliver [] ds₁) (deliver [] ds₂) :=
+  Lww.converge ds₁ ds₂ h₁ h₂ hset
+
+/-- … hence the same answer to "is this event active" -/
+theorem converge_active (ds₁ ds₂ : List Map) (h₁ : ∀ u ∈ ds₁, NoDup u) (h₂ : ∀ u ∈ ds₂, NoDup u)
+    (hset : ∀ u, u ∈ ds₁ ↔ u ∈ ds₂) (k : Bytes) : has (deliver [] ds₁) k = has (deliver [] ds₂) k :=
+  converge_has ds₁ ds₂ h₁ h₂ hset k
+
+/-- n replicas, any schedule of local updates and snapshot exchanges (partitions are simply
+schedules without certain pairs): replicas that have transitively absorbed the same updates
+agree. -/
+theorem schedule_converge (n : Nat) (evs : List NetEv)
+    (hu : ∀ e ∈ evs, ∀ r u, e = NetEv.localUpd r u → NoDup u)
+    (a b : Map × List Map) (ha : a ∈ (evs.foldl Net.step (Net.init n)).reps)
+    (hb : b ∈ (evs.foldl Net.step (Net.init n)).reps) (hsame : ∀ u, u ∈ a.2 ↔ u ∈ b.2) :
+    Equiv a.1 b.1 := net_converge n evs hu a b ha hb hsame
+
+/-- An entry is active exactly when it has been added and its latest add is not older than
+its latest remove (add bias on ties). -/
+theorem active_iff (v : Val) : v.isAdded = true ↔ v.add ≠ 0 ∧ v.add ≥ v.del := isAdded_iff v
+
+theorem active_after_add (s : Map) (k : Bytes) (now : Int) (p : Bytes)
+    (h : (get s k).add < now ∧ (get s k).del ≤ now ∧ now ≠ 0) : has (add s k now p) k = true :=
+  has_after_add s k now p h
+theorem inactive_after_del (s : Map) (k : Bytes) (now : Int) (h : (get s k).add < now) :
+    has (del s k now) k = false := not_has_after_del s k now h
+
+/-- the durable backend stores exactly what the volatile one holds, and (with the cache
+eviction of the D6 repair) answers `Has` from the stored value -/
+theorem durable_same_state (d : Durable) (k : Bytes) (now : Int) (p : Bytes) (r : Map) :
+    (d.add k now p).db = add d.db k now p ∧ (d.del k now).db = del d.db k now ∧
+    (d.merge r).1.db = (merge d.db r).1 ∧ (d.merge r).2 = (merge d.db r).2 := durable_refines d k now p r
+theorem durable_has (d : Durable) (k : Bytes) (h : d.coherent) :
+    (d.has k).1 = (get d.db k).isAdded ∧ (d.has k).2.db = d.db := durable_has_truth d k h
+
+/-! non-vacuity: ties and out-of-order times -/
+example : tget (merge [([1], ⟨5, 7, []⟩)] [([1], ⟨5, 3, [9]⟩), ([2], ⟨0, 4, []⟩)]).1 [1] = (5, 7) := by decide
+example : has (deliver [] [[([1], ⟨5, 0, []⟩)], [([1], ⟨0, 5, []⟩)]]) [1] = true := by decide
+
 end Emitter.C04
